@@ -27,9 +27,9 @@ func models(t *testing.T, run *report.Run) []*explore.Model {
 	exec := func(body func()) { synctest.Test(t, func(*testing.T) { body() }) }
 	replaying := *report.FlagReplay != ""
 	var ms []*explore.Model
-	mk := func(name, config string, depth, nd int, newSys func() explore.System) {
+	mk := func(name, config string, depth, nd int, budget time.Duration, newSys func() explore.System) {
 		part := name + "[" + config + "]"
-		m := &explore.Model{Name: name, Config: config, Depth: depth, NoDedupDepth: nd, Exec: exec, Classify: classify, Budget: 12 * time.Minute}
+		m := &explore.Model{Name: name, Config: config, Depth: depth, NoDedupDepth: nd, Exec: exec, Classify: classify, Budget: budget}
 		m.New = func() explore.System {
 			s := newSys()
 			if tr, ok := s.(tracer); ok && !replaying {
@@ -41,13 +41,27 @@ func models(t *testing.T, run *report.Run) []*explore.Model {
 		}
 		ms = append(ms, m)
 	}
-	for _, c := range v4configs(run.Thorough()) {
-		c := c
-		mk("dhcpv4", c.name, c.depth, c.nodedup, func() explore.System { return newV4sys(c.v4cfg, bubbleSleep) })
+	// when replaying, the models of both tiers are available
+	v4c, v6c := v4configs(run.Thorough()), v6configs(run.Thorough())
+	if replaying {
+		v4c, v6c = append(v4configs(false), v4configs(true)...), append(v6configs(false), v6configs(true)...)
 	}
-	for _, c := range v6configs(run.Thorough()) {
+	seen := map[string]bool{}
+	for _, c := range v4c {
 		c := c
-		mk("dhcpv6", c.name, c.depth, c.nodedup, func() explore.System { return newV6sys(c) })
+		if seen["4"+c.name] {
+			continue
+		}
+		seen["4"+c.name] = true
+		mk("dhcpv4", c.name, c.depth, c.nodedup, c.budget, func() explore.System { return newV4sys(c.v4cfg, bubbleSleep) })
+	}
+	for _, c := range v6c {
+		c := c
+		if seen["6"+c.name] {
+			continue
+		}
+		seen["6"+c.name] = true
+		mk("dhcpv6", c.name, c.depth, c.nodedup, c.budget, func() explore.System { return newV6sys(c) })
 	}
 	return ms
 }
